@@ -58,6 +58,11 @@ def fcall(n, t, args, sid):
     return {"k": "fcall", "n": n, "t": t, "args": args, "sid": sid}
 
 
+def bcall(n, *args):
+    """a built-in string function known to Core: LEN(s), LEFT$(s, n), MID$(s, n, m)"""
+    return {"k": "bcall", "n": n, "args": list(args)}
+
+
 def item(e):
     return {"k": "e", "e": e}
 
